@@ -6,8 +6,9 @@ import sys
 import time
 
 ROOT = os.path.dirname(os.path.dirname(os.path.abspath(__file__)))
-EVID = os.path.join(ROOT, 'evidence')
-REPLAYS = os.path.join(ROOT, 'replays')
+# seeded-change runs (seedtest.py) redirect their evidence and replay files so that the registered ones are not overwritten
+EVID = os.environ.get('VERIF_EVID', os.path.join(ROOT, 'evidence'))
+REPLAYS = os.environ.get('VERIF_REPLAYS', os.path.join(ROOT, 'replays'))
 FINDINGS = os.path.join(ROOT, 'known_findings.json')
 
 
